@@ -13,7 +13,8 @@ Verdict ==
   LET T == Data[k].steps
       bad9 == {<<i, c>> \in (1..Len(T)) \X Clauses : ~C09(T[i].proj)[c]}
       badL1 == {i \in 1..Len(T) : ~L1(T[i].proj)}
-      badL2b == {i \in 2..Len(T) : ~L2b(T[i - 1].proj, T[i].proj, T[i])}
+      StoppedBefore(i) == {u \in ActUids(T[i - 1].proj) : \E j \in 1..(i - 1) : \E q \in 1..Len(T[j].out_acts) : T[j].out_acts[q] = <<"Stop", u>>}
+      badL2b == {i \in 2..Len(T) : ~L2b(T[i - 1].proj, T[i].proj, T[i], StoppedBefore(i))}
       badL2c == {i \in 2..Len(T) : ~L2c(T[i - 1].proj, T[i].proj, T[i])}
       m == L2(T)
   IN PrintT(ToJson([k |-> k, n |-> Len(T), bad9 |-> bad9, l1 |-> badL1, l2b |-> badL2b, l2c |-> badL2c,
